@@ -248,26 +248,45 @@ def gen_markup_html(rng, size):
     return f'<html><body>{body}</body></html>'
 
 
+def _xml_radio_block(rng):
+    # dense radio groups for XML / XHTML trees, with the letter case of attribute names and values varied
+    names = rng.sample(['r1', 'R1', 'r2'], 2)
+    out = []
+    for _ in range(rng.randint(2, 4)):
+        a = ' %s="%s"' % (rng.choice(['type', 'type', 'type', 'TYPE']), rng.choice(['radio', 'radio', 'radio', 'RADIO']))
+        a += ' %s="%s"' % (rng.choice(['name', 'name', 'name', 'NAME']), rng.choice(names))
+        if rng.random() < 0.4:
+            a += ' %s="checked"' % rng.choice(['checked', 'checked', 'CHECKED', 'Checked'])
+        out.append(f'<input{a}/>')
+    body = ''.join(out)
+    return f'<form>{body}</form>' if rng.random() < 0.6 else body
+
+
 def _xml_node(rng, depth, budget):
     if budget[0] <= 0:
         return ''
     budget[0] -= 1
+    if rng.random() < 0.12:
+        budget[0] -= 2
+        return _xml_radio_block(rng)
     r = rng.random()
     pre = rng.choice(['', '', 'x:', 'h:', 's:'])
-    name = rng.choice(['item', 'Item', 'row', 'p', 'div', 'a', 'input', 'form', 'x-foo'])
+    name = rng.choice(['item', 'Item', 'row', 'p', 'div', 'a', 'input', 'input', 'form', 'x-foo'])
     attrs = _attrs(rng, None, xml=True)
     if rng.random() < 0.2:
         attrs += ' x:k="%s"' % rng.choice(['1', 'v'])
     if rng.random() < 0.15 and name == 'a':
         attrs += ' href="#"'
     if name == 'input':
-        attrs += ' type="%s"' % rng.choice(['radio', 'submit', 'text', 'number', 'checkbox', 'radio'])
-        if rng.random() < 0.5:
-            attrs += ' name="r1"'
-        if rng.random() < 0.4:
-            attrs += ' checked="checked"'
+        # XML keeps the case of attribute names and values: CHECKED is not checked, RADIO is not radio
+        attrs += ' %s="%s"' % (rng.choice(['type', 'type', 'type', 'TYPE']),
+                               rng.choice(['radio', 'submit', 'text', 'number', 'checkbox', 'radio', 'radio', 'RADIO']))
+        if rng.random() < 0.6:
+            attrs += ' %s="%s"' % (rng.choice(['name', 'name', 'name', 'NAME']), rng.choice(['r1', 'r1', 'R1']))
+        if rng.random() < 0.45:
+            attrs += ' %s="checked"' % rng.choice(['checked', 'checked', 'CHECKED', 'Checked'])
         if rng.random() < 0.2:
-            attrs += ' disabled="disabled"'
+            attrs += ' %s="disabled"' % rng.choice(['disabled', 'DISABLED'])
     if depth >= 4 or r < 0.3:
         t = _text(rng).replace('&', '').replace('<', '')
         if rng.random() < 0.1:
